@@ -99,3 +99,6 @@ _add_family(globals(), _dyn, 'dyn', _dyn.oracle_intervals, share=0.1)
 # an adaptive timestep inside a parallel worker: the timesteps handed are the ones requested
 from harness import adaptpar as _ap                # noqa: E402
 _add_family(globals(), _ap, 'adaptpar', _ap.oracle, share=0.02)
+# compartments created at run time (also several by one update): their processes are simulated from then on
+from harness import dynflow as _df                 # noqa: E402
+_add_family(globals(), _df, 'dynflow', lambda case, impl: _df.oracle(case, impl, who=('alive',)), share=0.06)
